@@ -41,8 +41,13 @@ def run(rep):
         "value is their conjunction / disjunction, and to raise TypeError for every other operator. GPR._eval_gpr / GPR.eval are "
         "proved a second time, against this heap-resident semantics, so that evaluation, removal, symbolic form, == and the gene "
         "set are all stated about one function; lemma kept-rule-is-old-rule-with-genes-absent lifts the remover's contract to the "
-        "GPR object remove_genes rewrites."),
-        more=[(VISITOR_KEYS, V.HOOKS)], lemmas=V.all_lemmas,
+        "GPR object remove_genes rewrites. from_symbolic's recursive converter _sympy_to_ast is proved to return, for a sympy expression "
+        "of the Symbol / Or / And fragment, a well-formed tree with the expression's Boolean value (sympy accessors func / args / name "
+        "assumed inverse to the constructors; node allocation modelled functionally: the function only builds). The directly recursive "
+        "functions (_symbolic_gpr, _sympy_to_ast, _eval_gpr) carry a variant - height of the node / size of the expression decreases at "
+        "every recursive call - so that `recursive call = own contract` is a well-founded induction. GPR.copy / __copy__ pass an "
+        "assumed deepcopy through."),
+        more=[(VISITOR_KEYS, V.HOOKS), (["GPR.from_symbolic._sympy_to_ast"], V.HOOKS_S2A)], lemmas=V.all_lemmas,
         trusted=["ast.parse / re / sympy (assumed)", "rule trees are finite and acyclic",
                  "ast.NodeVisitor.visit dispatches on the node's class name to visit_<Class> or generic_visit (assumed contracts "
                  "_GeneRemover.visit / GPRWalker.visit whose cases are the proved method contracts)",
@@ -55,6 +60,10 @@ def run(rep):
                  "replaces left / right by nodes (assumed contract GPRCleaner.generic_visit)",
                  "copy.deepcopy of a GPR object returns another GPR object with the same truth table, the same names and a body exactly "
                  "when the original has one (assumed; GPR.copy / __copy__ are proved to pass it through)",
+                 "sympy accessors: an expression of the GPR fragment is an Or / And of >= 1 such expressions (func, args) or an "
+                 "argument-less Symbol with a name, with the corresponding meaning; expressions and rule trees are finite (size / height "
+                 "decrease to arguments / children); ast.Name(id=..) / ast.BoolOp(op=.., values=[..]) as functional allocation inside "
+                 "_sympy_to_ast (assumed)",
                  "sympy: Symbol(k) is true iff k is not absent, Or(*es) / And(*es) mean some / all of es (whatever simplification they "
                  "apply), a.equals(b) is True only for logically equivalent a, b, `==` of two Symbols is structural (assumed)"])
 
